@@ -103,6 +103,9 @@ def run(ctx):
              'ValueError (only) otherwise')
     rep.rule('R10.6', 'QemuImgInfo._extract_bytes: (N bytes) first, bare '
              'number, single-letter unit gets B, IEC arithmetic')
+    rep.rule('R10.7', 'QemuImgInfo._extract_details: virtual_size, disk_size '
+             'and cluster_size all go through _extract_bytes (None / '
+             'unavailable -> 0)')
     _tables(ctx)
     _table(ctx)
     _qemu(ctx)
@@ -220,6 +223,15 @@ def _qemu(ctx):
         interp.call_raises['int'] = ['ValueError']
         interp.call_raises['float'] = ['ValueError']
     outcomes, _i = extract(world, thunk, setup=setup)
+    by_field = {}
+    from ..core.values import ListV
+    rep.analysed('imageutils.qemu.QemuImgInfo._extract_details')
+    for field in ('virtual_size', 'disk_size', 'cluster_size'):
+        def thunk_f(interp, field=field):
+            obj = Obj(cls, {}, label='info')
+            return interp.call(interp.get_attr(obj, '_extract_details'),
+                               [K(field), details, ListV([])])
+        by_field[field], _i = extract(world, thunk_f, setup=setup)
 
     def s2b_hook(v, val):
         if isinstance(v, T) and v.op == 'call' and \
@@ -271,3 +283,16 @@ def _qemu(ctx):
     grid_compare(rep, 'R10.6', 'QemuImgInfo._extract_bytes',
                  'human-readable size strings', outcomes, {details: grid},
                  oracle, hooks=[s2b_hook, rxmodel.hook], value_eq=close)
+
+    def oracle_f(v):
+        if v['details'] in ('None', 'unavailable'):
+            return ('return', 0)
+        return oracle(v)
+    for field, outs in sorted(by_field.items()):
+        grid_compare(rep, 'R10.7', 'QemuImgInfo._extract_details[%s]' %
+                     field, 'size field texts', outs,
+                     {details: grid + ('None', 'unavailable', 'none',
+                                       '64 KiB (65536 bytes)', '65536 B')},
+                     oracle_f, hooks=[s2b_hook, rxmodel.hook],
+                     value_eq=close)
+
